@@ -103,7 +103,7 @@ fn c15_div2_mul2_n3() {
     assert!(bit3(&z, i) == (i > 0 && bit3(&x, i - 1)));
 }
 #[kani::proof]
-#[kani::unwind(5)]
+#[kani::unwind(27)]
 fn c15_num_bits_bytes_n3() {
     let x = any3();
     let nb = x.num_bits();
@@ -144,4 +144,43 @@ fn c15_find_naf_n2_small_top() {
         acc = acc * 2 + z as i128;
     }
     assert!(acc == ((hi as i128) << 64) + lo as i128);
+}
+
+/// NAF / wNAF of the 1-limb values within 4 of 2^64 (where e + |z| carries out of the limb) reconstruct the value
+#[kani::proof]
+#[kani::unwind(70)]
+fn c15_find_naf_n1_high() {
+    let d: u64 = kani::any();
+    kani::assume(d < 4);
+    let x = u64::MAX - d;
+    let digits = ark_ff::biginteger::arithmetic::find_naf(&[x]);
+    let mut acc: i128 = 0;
+    let mut i = digits.len();
+    while i > 0 { i -= 1; acc = acc * 2 + digits[i] as i128; }
+    assert!(acc == x as i128);
+}
+#[kani::proof]
+#[kani::unwind(70)]
+fn c15_find_wnaf_n1_high() {
+    let d: u64 = kani::any();
+    kani::assume(d < 4);
+    let x = BigInt::<1>([u64::MAX - d]);
+    let w: usize = kani::any();
+    kani::assume(w >= 2 && w <= 4);
+    let digits = x.find_wnaf(w).unwrap();
+    let mut acc: i128 = 0;
+    let mut i = digits.len();
+    while i > 0 { i -= 1; acc = acc * 2 + digits[i] as i128; }
+    assert!(acc == (u64::MAX - d) as i128);
+}
+#[kani::proof]
+#[kani::unwind(12)]
+fn c15_relaxed_naf_small() {
+    let x: u64 = kani::any();
+    kani::assume(x < 64);
+    let digits = ark_ff::biginteger::arithmetic::find_relaxed_naf(&[x]);
+    let mut acc: i128 = 0;
+    let mut i = digits.len();
+    while i > 0 { i -= 1; acc = acc * 2 + digits[i] as i128; }
+    assert!(acc == x as i128);
 }
